@@ -723,6 +723,31 @@ func doubleTerminators(emit func(string)) {
 	}
 }
 
+// attrSoup: an attribute-list injection that starts with a quote (or not) and puts every short
+// sequence of separator / equals / empty-value pieces in front of a black attribute: the five
+// contexts read such a list one token out of phase with each other, so the verdict is decided by
+// exactly one of them -- IsXSS must still be their disjunction.
+func attrSoup(emit func(string)) {
+	pieces := []string{" ", "=", "x", "==", "=x=", "\x00", "\"\"", "''", "/", "a=b", "\t"}
+	vectors := []string{"onclick=alert(1)", "onerror=x ", "style=x"}
+	starts := []string{"'", "\"", "`", ""}
+	var rec func(cur string, d int)
+	rec = func(cur string, d int) {
+		for _, st := range starts {
+			for _, v := range vectors {
+				emit(st + cur + v)
+			}
+		}
+		if d == 0 {
+			return
+		}
+		for _, p := range pieces {
+			rec(cur+p, d-1)
+		}
+	}
+	rec("", 3)
+}
+
 func htmlAll(c *corpus, r *rng, tier string, scale int) *inputSet {
 	s := newInputSet()
 	for _, x := range c.kept {
@@ -738,6 +763,7 @@ func htmlAll(c *corpus, r *rng, tier string, scale int) *inputSet {
 	exhaustive(htmlAlphabet, depth, func(x string) { s.add("exhaustive", x) })
 	wrappedVectors(func(x string) { s.add("wrapped-vectors-with-tails", x) })
 	doubleTerminators(func(x string) { s.add("double-terminators", x) })
+	attrSoup(func(x string) { s.add("attr-soup", x) })
 	for _, k := range []int{40, 257, 1100} {
 		z := strings.Repeat("\x00", k)
 		for _, v := range []string{"<img src=x on%serror=alert(1)>", "x on%sfocus=alert(1) autofocus", "x' o%snclick=alert(1)", "<sc%sript>", "<a hr%sef=javascript:alert(1)>", "<a st%syle=x>", "<ifr%same>", "x\" xml%sns=x"} {
